@@ -26,6 +26,20 @@ NEEDS = {
     "C20-s6": ("C20", "FooterProxy::write hashes the whole buffer before the inner write instead of the accepted prefix afterwards", "a Directory whose writer does short writes or returns Interrupted (legal for io::Write; RamDirectory / MmapDirectory never do): every file of an intact index is reported as damaged"),
     "C09-s6": ("C09", "merger: store blocks are stacked verbatim also when they were written with another compressor than the merged store declares", "docstore_compression changed on an existing index (lz4 <-> none), then a merge of older segments without deletes and with >= 6 store blocks"),
     "C07-s7": ("C07", "SegmentPostings::append_positions_with_offset caches a running prefix sum of term frequencies that is not reset by a seek into another block", "a posting list with positions longer than one 128-document block; positions read at one document, then seek into a different block at an in-block index not smaller, different term frequencies; positions read again"),
+    "C02-s8": ("C02", "merge(): the merged entry's delete cursor is cloned from the first source BEFORE the advance_deletes loop", "a merge of uncommitted segments (budget cut / several threads) whose first source's cursor is still before a delete while another source holds a document re-added after that delete"),
+    "C05-s8": ("C05", "consider_merge_options: committed candidates also get the current opstamp as merge target (same mechanism as C04-s1, observed through readers)", "deletes pending while the merge options are reconsidered; a reload of a second Index instance or a rollback before the next commit"),
+    "C10-s8": ("C10", "ManagedDirectory::open_write creates the file before registering it in .managed.json", "a crash between the creation of a segment file and the replacement of .managed.json: the file is an orphan no managed list will ever contain"),
+    "C01-s9": ("C01", "advance_deletes deletes the superseded <seg>.<old opstamp>.del file right after writing the new one (before meta.json is replaced)", "a second delete-commit on a segment that already has a .del file and a crash between purge_deletes and the meta.json replacement"),
+    "C01-s9b": ("C01", "FooterProxy::terminate_ref calls writer.flush() instead of writer.terminate(): no managed file is ever fsynced", "a power loss right after commit() with un-terminated files coming back empty"),
+    "C04-s9": ("C04", "merge(): delete cursor of the merged entry taken before advancing the sources (as C02-s8)", "flushed uncommitted segment A, delete-by-key and re-add of the key landing in segment B, a policy merge of A+B, then commit: the updated document disappears"),
+    "C11-s9": ("C11", "SegmentUpdater::save_metas calls store_meta (in-memory active meta) BEFORE the durable write", "an I/O error on the meta.json replacement (reported by commit), the writer kept, and a GC before the commit is retried: the files of the last successful commit are deleted"),
+    "C06-s10": ("C06", "block-WAND union align_scorers: a scorer exhausted by seek(pivot) is removed with swap_remove and the ordering is not restored", ">= 3 union terms on the block-WAND path, a threshold already above the first term's max score, that term's list ending before the pivot and a rarer term after it"),
+    "C13-s10": ("C13", "BufferedUnionScorer::seek (in-window branch) moves bucket_idx before the combiner-clearing loop: stale score combiners", "a scoring union receiving a seek that skips a buffered document across a 64-doc bucket, then a refill into the next 4096 window with a slot collision: score depends on how the document was reached"),
+    "C03-s10": ("C03", "BufferedUnionScorer::fill_buffer no longer resets a drained bucket: later windows inherit phantom documents", "a top-level disjunction collected WITHOUT scores in blocks (DocSetCollector, FilterCollector) with matches spanning more than one 4096-doc window; Count and TopDocs stay correct"),
+    "C14-s11": ("C14", "fused terms x histogram collector computes bucket keys as base_key + b*interval: 1-ulp drift for fractional intervals", "top-level terms with a single histogram child over full columns, a FRACTIONAL interval, two segments with different minimum values (or min_doc_count = 0)"),
+    "C08-s11": ("C08", "optional index: reader uses <= DENSE_BLOCK_THRESHOLD where the writer uses <: a block with exactly 5,120 values is written dense and read sparse", "an optional column with exactly 5,120 documents carrying a value in one 65,536-row block"),
+    "C09-s11": ("C09", "serialize_vint_u32: the stop bit of the 4-byte branch is shifted by 16 instead of 24", "a stored text / bytes / JSON string value of 2 MiB or more: it comes back truncated"),
+    "C07-s11": ("C07", "SegmentWriter::index_document groups (field, value) pairs with an UNSTABLE sort", "a document with more than ~20 (field, value) pairs whose fields are interleaved: values of one multi-valued text field are permuted, token positions are wrong"),
     "C08-s7": ("C08", "BitUnpacker::get_ids_for_value_range truncates the upper bound to 32 bits instead of clamping it", "a bit-packed column of width <= 32 and a range whose upper bound (after min/gcd normalisation) is >= 2^32 with low 32 bits below the matching values"),
 }
 
